@@ -249,27 +249,27 @@ theorem firstWins_filter_key (hact : ∀ r r', act r = some r' → key r' = none
           simp [hkk, this]
 
 theorem mem_firstWins {x : α} : ∀ (rows : List α) (seen : List κ), x ∈ firstWins key act seen rows →
-    x ∈ rows ∨ ∃ r ∈ rows, act r = some x
+    x ∈ rows ∨ ∃ r ∈ rows, (key r).isSome = true ∧ act r = some x
   | [], _, h => by simp [firstWins] at h
   | r :: rs, seen, h => by
+    have lift : (x ∈ rs ∨ ∃ r' ∈ rs, (key r').isSome = true ∧ act r' = some x) →
+        x ∈ r :: rs ∨ ∃ r' ∈ r :: rs, (key r').isSome = true ∧ act r' = some x := by
+      rintro (h | ⟨r', h1, h2⟩)
+      · exact Or.inl (List.mem_cons_of_mem _ h)
+      · exact Or.inr ⟨r', List.mem_cons_of_mem _ h1, h2⟩
     unfold firstWins at h
     split at h
     · rcases List.mem_cons.1 h with h | h
       · exact Or.inl (h ▸ List.mem_cons_self)
-      · rcases mem_firstWins rs seen h with h | ⟨r', h1, h2⟩
-        · exact Or.inl (List.mem_cons_of_mem _ h)
-        · exact Or.inr ⟨r', List.mem_cons_of_mem _ h1, h2⟩
-    · split at h
+      · exact lift (mem_firstWins rs seen h)
+    · next k hk =>
+      split at h
       · rcases List.mem_append.1 h with h | h
-        · exact Or.inr ⟨r, List.mem_cons_self, by simpa [Option.mem_toList] using h⟩
-        · rcases mem_firstWins rs seen h with h | ⟨r', h1, h2⟩
-          · exact Or.inl (List.mem_cons_of_mem _ h)
-          · exact Or.inr ⟨r', List.mem_cons_of_mem _ h1, h2⟩
+        · exact Or.inr ⟨r, List.mem_cons_self, by simp [hk], by simpa [Option.mem_toList] using h⟩
+        · exact lift (mem_firstWins rs seen h)
       · rcases List.mem_cons.1 h with h | h
         · exact Or.inl (h ▸ List.mem_cons_self)
-        · rcases mem_firstWins rs _ h with h | ⟨r', h1, h2⟩
-          · exact Or.inl (List.mem_cons_of_mem _ h)
-          · exact Or.inr ⟨r', List.mem_cons_of_mem _ h1, h2⟩
+        · exact lift (mem_firstWins rs _ h)
 
 theorem mem_firstWins_of_unkeyed {x : α} (hx : key x = none) :
     ∀ (rows : List α) (seen : List κ), x ∈ rows → x ∈ firstWins key act seen rows
@@ -381,14 +381,27 @@ theorem preconv_keeps {L : List Row} {r : Row} (hr : r ∈ L)
   apply mem_firstWins_of_unkeyed (by simp [defaultKey, h2])
   exact List.mem_filter.2 ⟨hr, by simp [attrValueOk, h1]⟩
 
-theorem preconv_origin {L : List Row} {s : Row} (hs : s ∈ preconv L) :
-    ∃ s0 ∈ L, refTargets specConvRefs s = refTargets specConvRefs s0 := by
+/-- A row of the converter's input is a row the cleaner kept, or such a dgmtypeeffects row with its
+    default flag cleared. -/
+theorem mem_preconv {L : List Row} {s : Row} (hs : s ∈ preconv L) :
+    s ∈ L ∨ ∃ r ∈ L, r.tbl = .dgmtypeeffects ∧ s = demote r := by
   unfold preconv collidingModuleRacks multipleDefaultEffects at hs
-  rcases mem_firstWins _ _ hs with h | ⟨_, _, h⟩
-  · rcases mem_firstWins _ _ h with h | ⟨r, hr, h⟩
-    · exact ⟨s, (List.mem_filter.1 h).1, rfl⟩
+  rcases mem_firstWins _ _ hs with h | ⟨_, _, _, h⟩
+  · rcases mem_firstWins _ _ h with h | ⟨r, hr, hk, h⟩
+    · exact Or.inl (List.mem_filter.1 h).1
     · cases h
-      exact ⟨r, (List.mem_filter.1 hr).1, refTargets_demote (by decide) r⟩
+      refine Or.inr ⟨r, (List.mem_filter.1 hr).1, ?_, rfl⟩
+      unfold defaultKey at hk
+      split at hk
+      · next hc => simp only [Bool.and_eq_true, decide_eq_true_eq] at hc; exact hc.1
+      · cases hk
   · cases h
+
+theorem preconv_origin {refs : List Ref} (href : ∀ ρ ∈ refs, ρ.path ≠ .fk "isDefault")
+    {L : List Row} {s : Row} (hs : s ∈ preconv L) :
+    ∃ s0 ∈ L, refTargets refs s = refTargets refs s0 := by
+  rcases mem_preconv hs with h | ⟨r, hr, _, rfl⟩
+  · exact ⟨s, h, rfl⟩
+  · exact ⟨r, hr, refTargets_demote href r⟩
 
 end Eos.Cleaner
